@@ -10,7 +10,8 @@ from .. import runner, explore, coll, gen, target, findings, evidence
 
 RULE = ('All multisets with c in 0..3 roCreates, d in 0..3 roDeletes, o in 0..2 others (a roStoryAppend and a roReplace, '
         'which subclasses RunningOrder), running-order ID uniform or differing in exactly one member (each member in turn), '
-        'the empty list, x allow_incomplete in {False, True} x two supply orders, enumerated completely inside a fresh '
+        'the empty list, x allow_incomplete in {False, True} x two supply orders x message-ID layout {grouped by type, types interleaved in '
+        'message-ID order, repeated roCreates/roDeletes being the very same document}, enumerated completely inside a fresh '
         'interpreter per flag set {python, python -O}. Oracle: accepted <=> uniform ID and c == 1 and d <= 1 and '
         '(allow_incomplete or d == 1); rejection is InvalidMosCollection (never IndexError/AssertionError); on acceptance '
         'mc.ro.message_id is the roCreate\'s and the readers are exactly the other messages. Non-trivial = any list other '
@@ -29,16 +30,48 @@ def cases(tier):
                         for rev in (False, True):
                             if rev and n < 2:
                                 continue
-                            yield (c, d, o, odd, allow, rev)
+                            yield (c, d, o, odd, allow, rev, 'grouped')
+                            if n >= 3 and (c >= 2 or d >= 2):
+                                # the same multiset with the message IDs laid out so that, in message-ID order, members of one
+                                # type are separated by members of another type
+                                yield (c, d, o, odd, allow, rev, 'interleaved')
+                            if odd is None and (c >= 2 or d >= 2):
+                                # the repeated roCreates / roDeletes are the very same document (same text, path content, key content)
+                                yield (c, d, o, odd, allow, rev, 'identical')
 
 
-def build(c, d, o, odd, rev):
+def _interleave(kinds):
+    groups = {}
+    for k in kinds:
+        groups.setdefault(k, []).append(k)
+    order = []
+    while any(groups.values()):
+        for k in list(groups):
+            if groups[k]:
+                order.append(groups[k].pop())
+    return order
+
+
+def build(c, d, o, odd, rev, layout='grouped'):
     docs = []
     mid = 100
     kinds = ['create'] * c + ['delete'] * d + (['append', 'replace'][:o])
+    if layout == 'interleaved':
+        for k, kind in enumerate(_interleave(kinds)):
+            rid = 'RO-OTHER' if odd == k else gen.RO_ID
+            mid += 7
+            text = {'create': lambda: gen.ro_text([gen.story_xml('A', 0)], ro_id=rid, msg_id=mid),
+                    'delete': lambda: gen.msg_ro_delete(ro_id=rid, msg_id=mid),
+                    'append': lambda: gen.msg_story_append([gen.story_xml('E', 0)], ro_id=rid, msg_id=mid),
+                    'replace': lambda: gen.msg_ro_replace([gen.story_xml('C', 0)], ro_id=rid, msg_id=mid)}[kind]()
+            docs.append((mid, kind, text))
+        if rev:
+            docs.reverse()
+        return docs
     for k, kind in enumerate(kinds):
         rid = 'RO-OTHER' if odd == k else gen.RO_ID
-        mid += 7
+        if not (layout == 'identical' and k > 0 and kinds[k - 1] == kind):
+            mid += 7
         if kind == 'create':
             docs.append((mid, kind, gen.ro_text([gen.story_xml('A', 0)], ro_id=rid, msg_id=mid)))
         elif kind == 'delete':
@@ -62,8 +95,8 @@ def child(tier):
     store = coll.FakeS3()
     store.install(ns)
     tmpd = tempfile.mkdtemp(prefix='mosmc-c11-')
-    for (c, d, o, odd, allow, rev) in cases(tier):
-        docs = build(c, d, o, odd, rev)
+    for (c, d, o, odd, allow, rev, layout) in cases(tier):
+        docs = build(c, d, o, odd, rev, layout)
         uniform = odd is None or (c + d + o) == 1    # a single member always shares 'one' ID
         expect = uniform and c == 1 and d <= 1 and (allow or d == 1)
         out['n'] += 1
